@@ -90,7 +90,8 @@ def hosts_term(r):
         v = o.get(k)
         return d if v is None else bool(v)
     vec = [b("connected_before"), b("banned_after"), b("connected_after"), b("dial_in_refused"), b("dial_out_refused"),
-           b("banned_after_expiry"), b("dial_in_ok_after_expiry") and b("fresh_dial_in_ok_after_expiry")]
+           b("banned_after_expiry"), b("dial_in_ok_after_expiry") and b("fresh_dial_in_ok_after_expiry"),
+           b("dial_out_ok_after_expiry")]
     has = o.get("score_after", -1) != -1
     has_after = o.get("score_after_expiry", -1) not in (-1, None)
     return "(%d%%N, %s, %s, %s, %s)" % (sc, bl(vec), cbool(has), cz(o.get("score_after", 0) if has else 0), cbool(has_after))
@@ -129,7 +130,7 @@ def evaluate(ck, recs, tag=""):
         rs = [r for r in recs if r["k"] == kind]
         usable, terms = [], []
         for r in rs:
-            if r.get("panic") or r.get("unstable") or r.get("err") or r.get("timeout"):
+            if r.get("panic") or r.get("unstable") or r.get("err") or any(st.get("timeout") for st in r.get("steps", [])):
                 what = "harness could not complete the %s case: %s" % (kind, r.get("panic") or r.get("err") or "unstable timing")
                 if r.get("panic"):
                     f = dict(kind="input", key="c18:%s:panic" % kind, what=what, case=r, theorem_or_correspondence="harness/cmd/c18")
